@@ -38,6 +38,10 @@ class PipeAnalysis:
                     raise AbsRaise("ValueError", node, info.loc())
             at = "leaves(" + "+".join(sorted(self.ops.atoms_of(t))) + (("\\" + "+".join(sorted(self.ops.atoms_of(ex)))) if not self._empty(ex) else "") + ")"
             return SetV(items=None, elem=key_tv(at), atoms=frozenset([at]))
+        if info.name == "_check_expects_grad" and info.cls is None:
+            t = bound.get("tensor")
+            self.ops.pev("expects_grad_check", node, target=sorted(t.origin) if isinstance(t, TV) else None)
+            return None
         if info.cls is not None and self.agg_cls in info.cls.mro and info.name == "__call__":
             m = bound.get("matrix")
             lay = [l for l in (m.layout if isinstance(m, TV) else ()) if l[0] == 1]
@@ -97,6 +101,7 @@ class PipeAnalysis:
         def thunk():
             self.ops.seq = 0
             self.ops.loop_orders = []
+            self.ops.loop_ids = []
             return self.interp.exec_function(f, dict(args), None)
 
         return self.interp.run_paths(thunk)
